@@ -83,6 +83,90 @@ def h_relations(I, job):
     I.reach('end')
 
 
+def h_relmgr(I, job):
+    """the RelationsManager layer: relations with node and way members (types and refs symbolic over small sets), interest predicates, both member streams"""
+    nrel, mper = job['nrel'], job['mper']; nodes, ways = list(job['nodes']), list(job['ways']); skip = job.get('skip', -1); unw = job.get('unwanted', 0)
+    IDS = job['idset']
+    nm = I.new_obj(4 * nrel, 'nmem', 'heap'); ty = I.new_obj(4 * nrel * mper, 'types', 'heap'); rf = I.new_obj(8 * nrel * mper, 'refs', 'heap'); rels = []
+    for r in range(nrel):
+        cnt = I.named('nmem%d' % r, 8); I.assume(z3.And(z3.UGE(I.term(cnt, 8), 1), z3.ULE(I.term(cnt, 8), mper))); cnt = I.concretize(cnt, 'nmem')
+        I.store(nm + 4 * r, i32, cnt); ms = []
+        for k in range(mper):
+            t, x = 1, 0
+            if k < cnt:
+                tv = I.named('type%d_%d' % (r, k), 8); I.assume(z3.Or(I.term(tv, 8) == 1, I.term(tv, 8) == 2)); t = I.concretize(tv, 'type')
+                xv = I.named('ref%d_%d' % (r, k), 8); I.assume(z3.Or([I.term(xv, 8) == i for i in IDS])); x = I.concretize(xv, 'ref')
+                ms.append((t, x))
+            I.store(ty + 4 * (r * mper + k), i32, t); I.store(rf + 8 * (r * mper + k), i64, x)
+        rels.append(ms)
+    na = I.new_obj(8 * max(len(nodes), 1), 'nids', 'heap'); wa = I.new_obj(8 * max(len(ways), 1), 'wids', 'heap')
+    for k, x in enumerate(nodes): I.store(na + 8 * k, i64, x)
+    for k, x in enumerate(ways): I.store(wa + 8 * k, i64, x)
+    cap = 160; log = I.new_obj(8 * cap, 'log', 'heap')
+    n = I.concretize(I.call('@verif_relmgr', [nrel, nm, mper, ty, rf, skip & ((1 << 64) - 1), unw, len(nodes), na, len(ways), wa, log, cap]), 'n')
+    if n > cap: raise Finding('relmgr', 'log overflow (%d words)' % n)
+    got = [I.concretize(I.load(log + 8 * k, i64), 'w') for k in range(n)]
+    got = [g - (1 << 64) if g >> 63 else g for g in got]
+    I.observe('log', tuple(got))
+    # ---- set-based model of the same history
+    wanted = [[not ((unw >> (r * mper + k)) & 1) for k in range(len(ms))] for r, ms in enumerate(rels)]
+    alive = [100 + r != skip for r in range(nrel)]
+    need = [set(m for k, m in enumerate(ms) if wanted[r][k]) if alive[r] else set() for r, ms in enumerate(rels)]
+    tracked = set().union(*need) if need else set()
+    users = {}
+    for r, ms in enumerate(rels):
+        if alive[r]:
+            for k, m in enumerate(ms):
+                if wanted[r][k]: users[m] = users.get(m, 0) + 1
+    events = []; have = set()
+    for r in range(nrel):                               # a relation of interest none of whose members is wanted: never completed by a member arrival
+        pass
+    for phase, stream in ((1, nodes), (2, ways)):
+        for pos, x in enumerate(stream):
+            m = (phase, x)
+            if m not in tracked: events.append(('notin', phase, x)); continue
+            have.add(m); done = []
+            for r in range(nrel):
+                if alive[r] and m in need[r]:
+                    need[r].discard(m)
+                    if not need[r]: done.append(r)
+            for r in done:
+                rec = [(100 + r, phase * 100 + pos)]
+                for k, mm in enumerate(rels[r]): rec.append((mm[0], mm[1], mm[1]) if wanted[r][k] else (mm[0], 0, -2))
+                events.append(('done', tuple(rec)))
+                for k, mm in enumerate(rels[r]):
+                    if wanted[r][k]: users[mm] -= 1
+                alive[r] = False
+    incomplete = sorted(100 + r for r in range(nrel) if alive[r])
+    lookups = [(t, x, 1 if ((t, x) in have and users.get((t, x), 0) > 0) else 0) for t, stream in ((1, nodes), (2, ways)) for x in stream]
+    # ---- parse the log
+    j = 0; g_events = []
+    while j < len(got) and got[j] in (1, 5):
+        if got[j] == 5: g_events.append(('notin', got[j + 1], got[j + 2])); j += 3; continue
+        rec = [(got[j + 1], got[j + 2])]; j += 3
+        while j < len(got) and got[j] == 2: rec.append((got[j + 1], got[j + 2], got[j + 3])); j += 4
+        g_events.append(('done', tuple(rec)))
+    def canon(ev):
+        """completions at the same stream position are compared as a set; everything else in stream order"""
+        out = []; group = []
+        for e in ev:
+            if e[0] == 'done': group.append(e)
+            else: out += sorted(group); group = []; out.append(e)
+        return out + sorted(group)
+    if canon(g_events) != canon(events):
+        raise Finding('relmgr', 'completion / not-in-any-relation callbacks differ from the set-based model of the same history (which relations complete, when, exactly once, wanted members retrievable, unwanted members marked)')
+    g_inc = []
+    while j < len(got) and got[j] == 6: g_inc.append(got[j + 1]); j += 2
+    if sorted(g_inc) != incomplete or len(set(g_inc)) != len(g_inc):
+        raise Finding('relmgr', 'for_each_incomplete_relation lists %r, the relations with missing members are %r' % (g_inc, incomplete))
+    g_look = []
+    while j < len(got) and got[j] == 3: g_look.append((got[j + 1], got[j + 2], got[j + 3])); j += 4
+    if g_look != lookups:
+        raise Finding('relmgr', 'member lookups after the streams differ from the model: available while a relation still needs the member, absent after its last user was completed')
+    if got[j:] != [4, len(incomplete)]: raise Finding('relmgr', 'relations left in the database: log tail %r, %d incomplete' % (got[j:], len(incomplete)))
+    I.reach('end')
+
+
 def harnesses(tier):
     q = tier == 'quick'
     return [
@@ -90,4 +174,10 @@ def harnesses(tier):
                 desc='RelationsDatabase + MembersDatabase<Node> + ItemStash driven like RelationsManager: 2 relations with 1-2 node references each (ids symbolic over a small set: shared, duplicate and missing members all occur), a sorted stream of 3 distinct nodes: each complete relation is reported exactly once at its last member with all members retrievable; members stay available while another relation needs them and are reported absent afterwards; incomplete relations stay in the database',
                 bounds='2 relations x <= 2 members, 3 stream nodes, ids in {1,2,3} and in {-2,-1,3} (negative ids)', sanitize=True, wall=900,
                 testgen=lambda rnd: [dict(nmem0=2, nmem1=1, ref0_0=1, ref0_1=2, ref1_0=2, node0=1, node1=2, node2=3)]),
+        Harness('relations_manager', 'relmgr', h_relmgr,
+                jobs=[dict(nrel=2, mper=2, idset=(1, 2), nodes=(1, 2), ways=(1, 3)), dict(nrel=2, mper=2, idset=(1, 2), nodes=(2, 3), ways=(2,), unwanted=2),
+                      dict(nrel=2, mper=2, idset=(1, 2), nodes=(1, 2), ways=(1, 2), skip=101)] + ([] if q else [dict(nrel=2, mper=2, idset=(1, 2, 3), nodes=(1, 3), ways=(2, 3), unwanted=4), dict(nrel=3, mper=2, idset=(1, 2), nodes=(1, 2), ways=(2,)), dict(nrel=2, mper=3, idset=(1, 2), nodes=(1, 2), ways=(1, 2), unwanted=1)]),
+                desc='RelationsManager<.., nodes, ways> itself (relation() with new_relation / new_member predicates and set_ref(0) marking, prepare_for_lookup, SecondPassHandler node / way / flush, handle_complete_relation, *_not_in_any_relation, for_each_incomplete_relation): relations with 1-2 members whose types (node / way) and ids are symbolic over a small set, fixed sorted node and way streams with missing and unrelated ids: every callback, the member objects retrievable inside complete_relation, the incomplete list and the lookups after the run equal a set-based model of the same history',
+                bounds='2 relations x <= 2 members (thorough: also 3 relations, 3 members, 3 ids), member ids in {1,2}, streams of <= 2 nodes and <= 2 ways, one unwanted-member mask / skipped relation per job; relation-type members and the output buffer callback not driven', sanitize=True, wall=900,
+                testgen=lambda rnd: [dict(_job=0, nmem0=2, nmem1=1, type0_0=1, ref0_0=1, type0_1=2, ref0_1=1, type1_0=2, ref1_0=3)]),
     ]
